@@ -165,7 +165,10 @@ def new_symlist(ex, st, cls, length=None, arr=None, owner="fresh", name="list", 
     if length is None:
         length = z3.IntVal(0)
     if arr is None:
-        arr = z3.K(I, z3.IntVal(0) if sort == I else (z3.RealVal(0) if sort == R else z3.BoolVal(False)))
+        if isinstance(sort, z3.ArraySortRef):
+            arr = z3.K(I, z3.K(sort.domain(), z3.BoolVal(False) if sort.range() == B else z3.RealVal(0)))
+        else:
+            arr = z3.K(I, z3.IntVal(0) if sort == I else (z3.RealVal(0) if sort == R else z3.BoolVal(False)))
     st.heap[sid] = SymListData(length, arr, cls, owner)
     return SLRef(sid)
 
@@ -181,10 +184,27 @@ def symlist_get(ex, st, ref, i, node=None):
     return v
 
 
+def _opaque_elem(x):
+    """strings in a symbolic-length list are opaque: only the number of entries is tracked (every string is the placeholder 0)"""
+    from .core import StrV
+    return z3.IntVal(0) if isinstance(x, StrV) else lit(x)
+
+
 def symlist_append(ex, st, ref, x, node=None):
     d = st.heap[ref.sid]
     if d.owner != "fresh":
         st.writes.append((d.owner, "list.append", getattr(node, "lineno", 0)))
+    from .core import StrV
+    if d.cls is None and isinstance(x, StrV):
+        st.heap[ref.sid] = SymListData(d.length + 1, z3.Store(d.arr, d.length, z3.IntVal(0)), d.cls, d.owner)
+        return
+    if d.cls is None and isinstance(x, ARef):
+        # a list of arrays: the entry is the array's content (its length is not kept)
+        da = ex.arr(st, x)
+        if da.rank != 1 or d.arr.sort().range() != da.data.sort():
+            raise Undecided("append of an array to a list of another element kind")
+        st.heap[ref.sid] = SymListData(d.length + 1, z3.Store(d.arr, d.length, da.data), d.cls, d.owner)
+        return
     if d.cls is not None:
         if not isinstance(x, SObj) or x.cls != d.cls:
             raise Undecided(f"append of {type(x).__name__} to a list of {d.cls}")
@@ -198,11 +218,14 @@ def symlist_extend(ex, st, ref, other, node=None):
     d = st.heap[ref.sid]
     if d.owner != "fresh":
         st.writes.append((d.owner, "list.extend", getattr(node, "lineno", 0)))
-    from .core import SeqV
+    from .core import SeqV, LRef, StrV
     if isinstance(other, SeqV) and d.cls is None:
         j = z3.Int("j!ext")
-        arr = z3.Lambda([j], z3.If(j < d.length, z3.Select(d.arr, j), lit(other.getter(ex, st, j - d.length))))
+        arr = z3.Lambda([j], z3.If(j < d.length, z3.Select(d.arr, j), _opaque_elem(other.getter(ex, st, j - d.length))))
         st.heap[ref.sid] = SymListData(d.length + other.length, arr, d.cls, d.owner)
+        return
+    if isinstance(other, LRef) and d.cls is None and all(isinstance(x, StrV) for x in st.heap[other.sid].items):
+        st.heap[ref.sid] = SymListData(d.length + len(st.heap[other.sid].items), d.arr, d.cls, d.owner)
         return
     if not isinstance(other, SLRef):
         raise Undecided("extend with a non-symbolic list")
